@@ -500,7 +500,7 @@ package rueidis
 //@ func singleClient.Do
 //@   modifies *
 //@   assert [C28 retry-is-considered-only-for-an-enabled-retryable-command-after-a-retryable-error] at WaitOrSkipRetry: c.retry && cmd.IsRetryable() && returned(isRetryable) && arg2 == attempts
-//@   ensures [C28 the-last-attempts-reply-is-returned-unchanged] resp == returned(Do)
+//@   ensures [C28 the-last-attempts-reply-is-returned-unchanged where-defined] resp == returned(Do)
 //@   loop 0: repeat-only-if [C28 resend-only-after-expiry-or-an-approved-retry] returned(Error) == errConnExpired || (c.retry && cmd.IsRetryable() && returned(isRetryable) && returned(WaitOrSkipRetry))
 
 //@ func singleClient.DoMulti
@@ -597,3 +597,45 @@ package rueidis
 //@   assert [C07 mget-element-is-stamped-with-arrival-plus-its-pttl] at Update#2: (msg.values()[i].intlen >= 0 && 0 <= T2 && T2 < 72057594037927936) ==> arg3.getExpireAt() == T2
 //@   assert [C07 reply-is-stamped-with-arrival-plus-pttl] at Update#3: (msg.values()[ci-1].intlen >= 0 && 0 <= T3 && T3 < 72057594037927936) ==> arg3.getExpireAt() == T3
 //@   assert [C07 reply-without-server-expiry-is-not-stamped] at Update#3: msg.values()[ci-1].intlen < 0 ==> arg3.getExpireAt() == msg.values()[ci].getExpireAt()
+
+// ---------------------------------------------------------------------------------------------
+// C21 — replica routing (standalone.go). The candidate list handed to a ReadNodeSelector is s.nodes: empty, or the
+// primary followed by the replicas. A command reaches a replica only through pick, pick is reached only when
+// SendToReplicas said yes (for a batch: was asked about every command and never said no), and a selector result that is
+// not a valid index of the candidate list means the primary.
+//@ typeinv standalone len(self.nodes) == 0 || len(self.nodes) == len(self.replicas) + 1
+//@ immutable [C21] standalone toReplicas nodeSelector replicas nodes enableRedirect opt
+
+//@ func standalone.pick
+//@   modifies *
+//@   ensures [C21 selector-result-outside-the-candidate-list-means-the-primary where-defined] (s.nodeSelector != nil && (returned(nodeSelector) <= 0 || returned(nodeSelector) >= len(s.nodes))) ==> result == returned(Load)
+//@   ensures [C21 a-valid-selector-result-picks-that-replica where-defined] (s.nodeSelector != nil && 0 < returned(nodeSelector) && returned(nodeSelector) < len(s.nodes)) ==> result == s.replicas[returned(nodeSelector) - 1]
+//@   assert [C21 the-selector-sees-the-candidate-list] at nodeSelector: arg0 == slot && arg1 == s.nodes
+
+//@ func standalone.Do
+//@   option opaque-pkgs=github.com/redis/rueidis/internal/cmds
+//@   modifies *
+//@   assert [C21 a-replica-is-picked-only-when-send-to-replicas-said-yes] at pick: s.toReplicas != nil && returned(toReplicas)
+//@   assert [C21 send-to-replicas-is-asked-about-this-command] at toReplicas: arg0 == cmd
+
+//@ func standalone.DoMulti
+//@   option opaque-pkgs=github.com/redis/rueidis/internal/cmds
+//@   modifies *
+//@   assert [C21 a-replica-is-picked-only-when-send-to-replicas-said-yes-for-every-command] at pick: s.toReplicas != nil && toReplica && i >= len(multi) && len(multi) > 0
+//@   assert [C21 send-to-replicas-is-asked-about-command-i] at toReplicas: arg0 == multi[i] && 0 <= i && i < len(multi)
+//@   loop 2: invariant [C21] 0 <= i && i <= len(multi) && (s.toReplicas == nil ==> !toReplica)
+
+//@ func standalone.Receive
+//@   modifies *
+//@   assert [C21 a-replica-is-picked-only-when-send-to-replicas-said-yes] at pick: s.toReplicas != nil && returned(toReplicas)
+
+// cluster streaming batches: the batch goes to a replica only if SendToReplicas approved every command of it — commands
+// without a slot included (they follow the batch, they are not exempt)
+//@ func clusterClient.toReplica
+//@   modifies *
+//@ func clusterClient.DoMultiStream
+//@   option opaque-pkgs=github.com/redis/rueidis/internal/cmds
+//@   modifies *
+//@   assert [C21 replica-only-if-every-command-of-the-batch-was-approved] at pick: repl ==> calls(toReplica) == len(multi)
+//@   assert [C21 commands-are-asked-about-in-order] at toReplica: 0 <= calls(toReplica) && calls(toReplica) < len(multi) && arg1 == multi[calls(toReplica)]
+//@   loop 0: invariant [C21] 1 <= i && i <= len(multi) && (repl ==> calls(toReplica) == i)
